@@ -363,6 +363,8 @@ class Interp:
                       "enumerate": lambda *a: list(enumerate(*a)), "zip": lambda *a: list(zip(*a)), "range": lambda *a: list(range(*a)),
                       "int": int, "float": float, "str": str, "bool": bool, "abs": abs, "min": min, "max": max, "sum": sum,
                       "any": any, "all": all, "round": round, "divmod": divmod, "frozenset": frozenset}
+            if fn == "len" and len(args) == 1 and isinstance(args[0], NS):
+                return args[0].get("__len__", U)
             if fn == "hasattr" and len(args) == 2 and isinstance(args[0], NS) and isinstance(args[1], str):
                 return args[1] in args[0] and args[0][args[1]] is not U
             if fn == "isinstance" and len(e.args) == 2 and args and isinstance(args[0], NS) and "__cls__" in args[0]:
@@ -516,7 +518,7 @@ class Interp:
                 continue
             if isinstance(st, ast.For):
                 it = self.ev(st.iter)
-                if it is UNKNOWN or st.orelse:
+                if it is UNKNOWN or (st.orelse and not self.exact):
                     if self.exact:
                         raise Unknowable(f"loop at L{st.lineno}")
                     self._poison([st])
@@ -526,18 +528,25 @@ class Interp:
                 except TypeError:
                     self._poison([st])
                     continue
+                broke = False
                 for item in items:
                     if not self._bind(st.target, item):
                         self._poison([st])
+                        broke = True
                         break
                     r = self.run(st.body)
                     if r == "break":
+                        broke = True
                         break
                     if r == "exit":
                         if self.exact:
                             return "exit"
                         self._poison([st])
                         return None
+                if st.orelse and not broke:
+                    r = self.run(st.orelse)
+                    if r:
+                        return r
                 continue
             if isinstance(st, ast.While) and self.exact and not st.orelse:
                 while True:
